@@ -1320,14 +1320,22 @@ def element_cases(rng, tier, v):
             continue
         finally:
             _FORCE_DT[0] = None
+        # options: order= for tensor-like spaces, cast= for product spaces
+        kw, o_term, c_term = {}, 'None', 'true'
+        if S[0] != 'prod' and rng.random() < 0.4:
+            o = rng.choice(['C', 'F'])
+            kw, o_term = {'order': o}, '(Some Ord%s)' % o
+        elif S[0] == 'prod' and rng.random() < 0.35:
+            kw, c_term = {'cast': False}, 'false'
         try:
-            out = observe_element(oS.element(inp), inp)
+            out = observe_element(oS.element(inp, **kw), inp)
         except ValueError:
             out = 'BValueErr'
         except Exception:          # TypeError, or anything else (then it shows up as a mismatch)
             out = 'BTypeErr'
-        t = '{| x_v := %s; x_S := %s; x_inp := %s; x_out := %s |}' % (vv, coq_obj(S), term, out)
-        cs.add(t, {'S': repr(S)[:300], 'inp': term[:300], 'out': out[:200]}, (repr(S), term))
+        t = ('{| x_v := %s; x_S := %s; x_ord := %s; x_cast := %s; x_inp := %s; x_out := %s |}'
+             % (vv, coq_obj(S), o_term, c_term, term, out))
+        cs.add(t, {'S': repr(S)[:300], 'opts': kw, 'inp': term[:300], 'out': out[:200]}, (repr(S), term, repr(kw)))
     return cs
 
 
@@ -1591,6 +1599,31 @@ def probe_element(rng, tier, out):
             ok = _safe(lambda: np.shares_memory(np.asarray(oS.element(te)), np.asarray(te)))
             out.append(C.Probe(ok, 'element-nocopy-discr-tspace', 'discr.element(tspace element) wraps it without copying',
                                head + "te = oS.tspace.zero()\nok = bool(np.shares_memory(np.asarray(oS.element(te)), np.asarray(te)))\n"))
+        # data_ptr= / invalid option combinations (NumpyTensorSpace.element)
+        if kind == 'tensor' and oS.size > 0:
+            src = np.ascontiguousarray(_rand_data(rng, oS.shape, leaf_tsp(S)[1]).astype(oS.dtype))
+            def _dp():
+                e = oS.element(data_ptr=src.ctypes.data, order='C')
+                return (e in oS) and np.array_equal(np.asarray(e), src) and np.shares_memory(np.asarray(e), src) or \
+                    (np.array_equal(np.asarray(e), src) and np.asarray(e).ctypes.data == src.ctypes.data)
+            out.append(C.Probe(_safe(_dp), 'element-data_ptr', 'S.element(data_ptr=p, order="C") wraps the memory at p',
+                               head + "src = np.ascontiguousarray(np.arange(oS.size).reshape(oS.shape).astype(oS.dtype))\n"
+                               "e = oS.element(data_ptr=src.ctypes.data, order='C')\nok = (e in oS) and np.array_equal(np.asarray(e), src) and np.asarray(e).ctypes.data == src.ctypes.data\n"))
+            def _raises(f, exc):
+                try:
+                    f()
+                except exc:
+                    return True
+                except Exception:
+                    return False
+                return False
+            ok = (_raises(lambda: oS.element(src, data_ptr=src.ctypes.data), TypeError)
+                  and _raises(lambda: oS.element(data_ptr=src.ctypes.data), ValueError)
+                  and _raises(lambda: oS.element(src, order='X'), ValueError))
+            out.append(C.Probe(ok, 'element-option-errors', 'inp together with data_ptr: TypeError; data_ptr without order, unknown order: ValueError',
+                               head + "src = np.zeros(oS.shape, dtype=oS.dtype)\nok = True\n"
+                               "for f, exc in [(lambda: oS.element(src, data_ptr=src.ctypes.data), TypeError), (lambda: oS.element(data_ptr=src.ctypes.data), ValueError), (lambda: oS.element(src, order='X'), ValueError)]:\n"
+                               "    try:\n        f(); ok = False\n    except exc:\n        pass\n    except Exception:\n        ok = False\n"))
         # (3) incompatible shapes raise (ValueError)
         bad = _input_for(rng, S, good=False)
         try:
